@@ -18,31 +18,60 @@ Variable fr : node -> ctx -> ctx * option err.
 Lemma rules_nil c : rules fr [] c = (c, None).
 Proof. reflexivity. Qed.
 
+Lemma rules_lz_cons_ok n r c c' lz : fr n c = (c', None) -> rules_lz fr (n :: r) c lz = rules_lz fr r c' lz.
+Proof. intro H. simpl. rewrite H. reflexivity. Qed.
+
 Lemma rules_cons_ok n r c c' : fr n c = (c', None) -> rules fr (n :: r) c = rules fr r c'.
+Proof. apply rules_lz_cons_ok. Qed.
+
+(* a lazybreak raised by a rule does not cut the block short *)
+Lemma rules_lz_cons_lazy n r c c' lz :
+  fr n c = (c', Some ELBreak) -> rules_lz fr (n :: r) c lz = rules_lz fr r c' true.
 Proof. intro H. simpl. rewrite H. reflexivity. Qed.
 
-(* a failing rule stops the sequence: nothing that follows is executed *)
-Lemma rules_cons_err n r c c' e : fr n c = (c', Some e) -> rules fr (n :: r) c = (c', Some e).
-Proof. intro H. simpl. rewrite H. reflexivity. Qed.
+(* a failing rule (or break / continue) stops the sequence: nothing that
+   follows is executed *)
+Lemma rules_lz_cons_err n r c c' e lz :
+  fr n c = (c', Some e) -> e <> ELBreak -> rules_lz fr (n :: r) c lz = (c', Some e).
+Proof. intros H N. simpl. rewrite H. destruct e; try reflexivity. congruence. Qed.
 
-Lemma rules_app l1 l2 c :
-  rules fr (l1 ++ l2) c =
-  match rules fr l1 c with
-  | (c', None) => rules fr l2 c'
-  | res => res
-  end.
+Lemma rules_cons_err n r c c' e :
+  fr n c = (c', Some e) -> e <> ELBreak -> rules fr (n :: r) c = (c', Some e).
+Proof. apply rules_lz_cons_err. Qed.
+
+(* [l] runs to its end: every rule succeeds or asks for a lazybreak *)
+Inductive block_clean : list node -> ctx -> bool -> ctx -> bool -> Prop :=
+| bc_nil c lz : block_clean [] c lz c lz
+| bc_none n l c c1 lz c2 lz2 :
+    fr n c = (c1, None) -> block_clean l c1 lz c2 lz2 -> block_clean (n :: l) c lz c2 lz2
+| bc_lazy n l c c1 lz c2 lz2 :
+    fr n c = (c1, Some ELBreak) -> block_clean l c1 true c2 lz2 -> block_clean (n :: l) c lz c2 lz2.
+
+Lemma rules_lz_app l1 : forall c lz c1 lz1 l2,
+  block_clean l1 c lz c1 lz1 -> rules_lz fr (l1 ++ l2) c lz = rules_lz fr l2 c1 lz1.
 Proof.
-  revert c; induction l1 as [|n l1 IH]; intro c; simpl; [reflexivity|].
-  destruct (fr n c) as [c' [e|]]; [reflexivity|apply IH].
+  induction l1 as [|m l1 IH]; intros c lz c1 lz1 l2 H; inversion H; subst; simpl.
+  - reflexivity.
+  - match goal with E : fr m c = _ |- _ => rewrite E end. apply IH. assumption.
+  - match goal with E : fr m c = _ |- _ => rewrite E end. apply IH. assumption.
 Qed.
 
 (* the error of a sequence is the error of its first failing rule, and the
    rules after it do not matter *)
-Lemma rules_err_prefix l1 n l2 l2' c c1 c2 e :
-  rules fr l1 c = (c1, None) -> fr n c1 = (c2, Some e) ->
+Lemma rules_err_prefix l1 n l2 l2' c c1 lz1 c2 e :
+  block_clean l1 c false c1 lz1 -> fr n c1 = (c2, Some e) -> e <> ELBreak ->
   rules fr (l1 ++ n :: l2) c = (c2, Some e) /\ rules fr (l1 ++ n :: l2') c = (c2, Some e).
 Proof.
-  intros H1 H2. rewrite !rules_app, H1. simpl. rewrite H2. split; reflexivity.
+  intros H1 H2 N. unfold rules. rewrite !(rules_lz_app l1 c false c1 lz1) by exact H1.
+  split; apply rules_lz_cons_err; assumption.
+Qed.
+
+(* after a clean block the result is the remembered lazybreak, or nothing *)
+Lemma rules_clean l c c1 lz1 :
+  block_clean l c false c1 lz1 -> rules fr l c = (c1, if lz1 then Some ELBreak else None).
+Proof.
+  intro H. unfold rules. rewrite <- (app_nil_r l). rewrite (rules_lz_app l c false c1 lz1) by exact H.
+  reflexivity.
 Qed.
 
 (* -------------------------------------------------------------- body *)
